@@ -1534,7 +1534,7 @@ def chamber_tables(ctx, rule, body, g, fill=0):
     n = 0
     for bi, t in b.calls("vec::from_elem"):
         a = [strip(norm(b.origin(x), g)) for x in t["args"]]
-        szs = [y for y in subterms(a[1]) if isinstance(y, tuple) and y and ((y[0] == "call" and y[1].endswith("::size")) or (y[0] == "field" and y[2] == "size"))]
+        szs = [y for y in subterms(a[1]) if isinstance(y, tuple) and y and ((y[0] == "call" and y[1].endswith("::size")) or (y[0] == "field" and y[2] in ("size", "max_size")))]
         if not szs:
             continue
         n += 1
